@@ -293,8 +293,10 @@ Definition case_ok (w : world) (c : client) (tk : str * str) : bool :=
       end
   end.
 
-Definition scenario_ok (P : list str) (st : mstate) : bool :=
-  match run_ops empty_world (scenario_ops P st) with
+(* (the run of the scenario is passed as an argument so that no proof step
+   ever asks the kernel to convert a term containing it) *)
+Definition scenario_ok_of (ow : option world) : bool :=
+  match ow with
   | None => false
   | Some w =>
       match get_client w subject with
@@ -304,13 +306,43 @@ Definition scenario_ok (P : list str) (st : mstate) : bool :=
   end.
 
 Definition table_ok : bool :=
-  forallb (fun P => forallb (scenario_ok P) mstates) (sublists all_perms).
+  forallb (fun P => forallb (fun st => scenario_ok_of (run_ops empty_world (scenario_ops P st))) mstates)
+          (sublists all_perms).
 
 Lemma table_ok_true : table_ok = true.
 Proof. vm_compute. reflexivity. Qed.
 
 Lemma mstates_all : forall st, In st mstates.
 Proof. intros []; cbn; tauto. Qed.
+
+Lemma case_ok_sound : forall w c t k r req,
+  case_ok w c (t, k) = true ->
+  spec_required t k = Some req ->
+  handle_client_message w subject c (canon_msg t k) = Ok r ->
+  r_auth r = Passed ->
+  c_group c <> None /\ subset req (c_perms c) = true.
+Proof.
+  intros w c t k r req T Hs Hh Hp. unfold case_ok in T. cbn [fst snd] in T.
+  rewrite Hs, Hh, Hp in T. apply andb_prop in T. destruct T as [T1 T2].
+  split; [|exact T2]. destruct (c_group c); [discriminate | discriminate].
+Qed.
+
+Lemma scenario_ok_sound : forall w c,
+  scenario_ok_of (Some w) = true ->
+  get_client w subject = Some c ->
+  forall tk, In tk msg_kinds -> case_ok w c tk = true.
+Proof.
+  intros w c T Hc. cbn [scenario_ok_of] in T. rewrite Hc in T.
+  rewrite forallb_forall in T. exact T.
+Qed.
+
+Lemma table_scenarios : forall P st, In P (sublists all_perms) ->
+  scenario_ok_of (run_ops empty_world (scenario_ops P st)) = true.
+Proof.
+  intros P st HP. pose proof table_ok_true as T. unfold table_ok in T.
+  rewrite forallb_forall in T. specialize (T P HP). rewrite forallb_forall in T.
+  exact (T st (mstates_all st)).
+Qed.
 
 Theorem table : forall P st t k w c r req,
   In P (sublists all_perms) -> In (t, k) msg_kinds ->
@@ -322,12 +354,9 @@ Theorem table : forall P st t k w c r req,
   c_group c <> None /\ subset req (c_perms c) = true.
 Proof.
   intros P st t k w c r req HP Htk Hw Hc Hs Hh Hp.
-  pose proof table_ok_true as T. unfold table_ok in T. rewrite forallb_forall in T.
-  specialize (T P HP). rewrite forallb_forall in T. specialize (T st (mstates_all st)).
-  unfold scenario_ok in T. rewrite Hw, Hc in T. rewrite forallb_forall in T.
-  specialize (T (t, k) Htk). unfold case_ok in T. cbn [fst snd] in T.
-  rewrite Hs, Hh, Hp in T. apply andb_prop in T. destruct T as [T1 T2].
-  split; [|exact T2]. destruct (c_group c); [discriminate | discriminate].
+  pose proof (table_scenarios P st HP) as T. rewrite Hw in T.
+  eapply case_ok_sound; [|exact Hs|exact Hh|exact Hp].
+  eapply scenario_ok_sound; [exact T | exact Hc | exact Htk].
 Qed.
 
 (* ------------------------------------------------------------------ *)
